@@ -122,6 +122,13 @@ def build() -> Check:
                         dl = so.fields.get("next_attempt_delay_seconds") if isinstance(so, Obj) else None
                         if dl is None or not at_least_one(dl, t.pc):
                             b3.append((f"RETRY delay {dl.key() if dl else None} is not bounded below by 1 second", t))
+                        elif not ("delay" in dl.key() and "ret:" in dl.key()):
+                            # "recorded with ITS delay": a constant is acceptable only as the clamp of a decided delay below one second (mutscan 4: the `< 1` operand
+                            # of the clamp's test dropped - every poll is scheduled one second later, whatever the strategy said)
+                            clamp = isinstance(dl, Const) and any(str(k).startswith("ret:") and "delay" in str(k) and str(k).endswith("< 1") and v is True for k, v in t.pc)
+                            if not clamp:
+                                b3.append((f"the RETRY record carries the delay {dl.key()}, not the one the wait strategy decided (a constant is only the clamp of a "
+                                           "decided delay below one second)", t))
                     if not is_suspend(prog, t):
                         b3.append(("continue decided but the call does not suspend", t))
                     if [x for x in cks if x.data.get("action") == "SUCCEED"]:
